@@ -48,3 +48,10 @@ m = {
 }
 json.dump(m, open(os.path.join(ROOT, "MANIFEST.json"), "w"), indent=1)
 print("MANIFEST.json: %d checks, %d not_applicable" % (len(checks), len(na)))
+
+# sanity: every Lean module a check lists must be imported by lean/Pdb.lean (so that `lake build Pdb` covers it)
+import os, sys
+_imports = set(l.split()[1] for l in open(os.path.join(os.path.dirname(__file__), "..", "lean", "Pdb.lean")) if l.startswith("import "))
+_missing = sorted(set(m for p in P.PROPS.values() for m in p.get("lean", [])) - _imports)
+if _missing:
+    print("WARNING: listed in tools/props.py but not imported by lean/Pdb.lean:", ", ".join(_missing))
